@@ -302,6 +302,7 @@ def run(ctx):
     _gf(ctx, [('COUNT-TABLE', count_table, 'bad_counttable')])
 
     from engine.run import borrow
+    borrow(ctx, 'C09', ['WRAPPER'], 'the zero fill at the end of the data in the public read wrappers is a write into the caller\'s buffer: its size must be the one of the sample type (sibling sheets)')
     borrow(ctx, 'C13', ['GROW-CAP', 'ITER-BOUNDS'], 'the read-chunk table grows while a header is parsed: capacity bookkeeping is memory safety of the parser')
 
     ctx.rule('ALLOC-INDEX', 'every subscript T [i] of a table allocated in the same function as T = calloc (N, ...) with a variable count has i < N proved by A-PENT at the subscript '
